@@ -276,6 +276,25 @@ def main():
                     f'{res.get("stderr", "")[-800:]}')
             exit_code = 3 if exit_code == 0 else exit_code
 
+    # decorators are transparent for the engine (A-4 / A-5): a function under contract that is wrapped by anything but the decorators
+    # accounted for leaves the verifier's reach (a memoising or otherwise behaviour-changing wrapper is not modelled)
+    ALLOWED_DECORATORS = {'property', 'staticmethod', 'classmethod', 'abstractmethod', 'setter', 'njit', 'jit', 'guvectorize', 'lru_cache'}
+    from pyvc.source import RepoFunc, RepoClass
+    rp0 = repo()
+    for q in getattr(mod, 'FUNCTIONS', []):
+        try:
+            f = rp0.find(q)
+        except Exception:
+            continue
+        fns = [f] if isinstance(f, RepoFunc) else ([m for m in f.members.values() if isinstance(m, RepoFunc)] if isinstance(f, RepoClass) else [])
+        for fn in fns:
+            odd = [d for d in fn.decorators if d not in ALLOWED_DECORATORS]
+            if 'lru_cache' in fn.decorators and not (fn.qual.startswith('jesse.helpers.') or fn.qual.endswith('._min_qty')):
+                odd.append('lru_cache')
+            if odd:
+                rep.say(f'UNDECIDED property={prop}: function under contract {fn.qual} is wrapped by @{", @".join(odd)}: decorators are '
+                        'transparent for the verifier, this one is not accounted for')
+                undecided.append(f'{fn.qual}:decorator-accounted-for')
     if undecided and exit_code == 0:
         exit_code = 2
     if violated:
